@@ -401,6 +401,16 @@ class Interp:
             fut=f, submitted=True, cancel=None, exn=None, pickler_at_submit=None)
         return {"accepted": True}
 
+    def op_probe_gc_shutdown(self, th, o):
+        info = self.obs.executors.get(o.get("n", 0))
+        if info is None:
+            return {"skipped": True}
+        k = rt.RT.kernel
+        mgr_alive = any(t.role == "manager" and t.state != sk.DONE for t in k.procs[100].tasks)
+        return dict(collected=info["wref"]() is None, mgr_alive=mgr_alive, pending=len(info["pending"]),
+                    workers_alive=[p for p in sorted(info["all_pids"] | set(info["processes"])) if k.procs[p].alive],
+                    shutdown_flag=info["flags"].shutdown)
+
     def op_check_idle(self, th, o):
         """bookkeeping of an executor when all futures handed out are done."""
         ex = self.slots.get(o["ex"])
